@@ -24,7 +24,7 @@ package engine
 //@   requires typing: dmap(d)[boxed(global("github.com/uber-go/gopatch/internal/engine.fileMatchKey"))] != nil ==> wfFileMatch(dmap(d)[boxed(global("github.com/uber-go/gopatch/internal/engine.fileMatchKey"))])
 //@   requires recorded-slots-are-current: restructured == noneRestructured()
 //@   at call (engine.FileReplacer).Replace set replFail = replFail + ite(result1 != nil, 1, 0)
-//@   assigns group(ast), replFail, sitesReplaced, restructured, inspections
+//@   assigns group(ast), replFail, sitesReplaced, restructured, inspections, importFailures
 //@   ensures err == nil ==> f != nil && replFail == old(replFail)
 //@   ensures err != nil ==> replFail == old(replFail) + 1
 //@   ensures [C09] the-matched-file-object-is-returned: err == nil ==> f == matchedFile(dmap(d))
@@ -928,10 +928,12 @@ package engine
 //@   requires clOK(cl)
 //@   requires typing: dmap(d)[boxed(global("github.com/uber-go/gopatch/internal/engine.fileMatchKey"))] != nil ==> wfFileMatch(dmap(d)[boxed(global("github.com/uber-go/gopatch/internal/engine.fileMatchKey"))])
 //@   at call engine.Replacer.Replace assert [C03] each-site-with-its-own-bindings: arg1 == m.data && arg3 == m.region.Pos
+//@   at call (engine.ImportsReplacer).Replace assert [C03,C08,C11] the-imports-are-generated-from-the-bindings-of-the-file-not-of-a-site: arg0 == r.Imports && arg1 == d0 && arg3 == fd.File
+//@   at call (engine.ImportsReplacer).Cleanup assert [C03,C08,C11] the-imports-are-cleaned-up-under-the-bindings-of-the-file: arg0 == r.Imports && arg1 == d0 && arg2 == fd.File && arg3 == ret("(engine.ImportsReplacer).Replace", 0, 0)
 //@   requires recorded-slots-are-current: restructured == noneRestructured()
 //@   at call engine.Replacer.Replace set sitesReplaced = sitesReplaced + 1
 //@   at call (reflect.Value).Set assert [C03,C05] the-slot-written-is-the-slot-that-matched: m.index >= 0 ==> !restructured[m.parent]
-//@   assigns group(ast), sitesReplaced, restructured, inspections
+//@   assigns group(ast), sitesReplaced, restructured, inspections, importFailures
 //@   ensures [C03] every-recorded-site-is-processed: err == nil ==> sitesReplaced == old(sitesReplaced) + len(fd.Matches)
 //@   ensures [C06,C09] the-matched-file-object-is-returned: err == nil ==> file == matchedFile(dmap(d))
 //@   ensures [C09] never-another-file: file == nil || file == matchedFile(dmap(d))
@@ -957,9 +959,13 @@ package engine
 //@   requires d != nil && f != nil
 //@   requires clOK(cl)
 //@   at call (engine.ImportReplacer).Replace assert [C11] every-plus-import-in-order-from-the-same-bindings: arg0 == imp && arg1 == d && arg3 == f
-//@   assigns group(ast), restructured
+//@   at call (engine.ImportReplacer).Replace set importFailures = importFailures + ite(result1 != nil, 1, 0)
+//@   ensures [C07,C11,C16] an-import-that-cannot-be-added-fails-the-change: importFailures > old(importFailures) ==> err != nil
+//@   ensures-assumed typing: declsEndSafe(f)
+//@   assigns group(ast), restructured, importFailures
 //@   loop 0
 //@     invariant names.arr == 0 || fresh(names.arr)
+//@     invariant [C07,C11,C16] importFailures == old(importFailures)
 
 // A region is recorded exactly as reported - a region whose end lies before its start is empty and stays
 // empty (the differ reports such regions for the last element of a list); the interval set itself is
@@ -1034,13 +1040,16 @@ package engine
 //@   at call golang.org/x/tools/go/ast/astutil.DeleteNamedImport assert [C11] deleted-under-the-name-recorded-for-this-very-import: arg2 == impRecName(dmap(d), imp)
 //@   at call golang.org/x/tools/go/ast/astutil.DeleteNamedImport assert [C11] only-if-replaced-or-unused: replaced || !ret("engine.usesNameAsTopLevel", 0)
 //@   at call engine.usesNameAsTopLevel assert [C11] usage-is-checked-under-this-imports-own-package-name: dmap(d)[boxed(as("github.com/uber-go/gopatch/internal/engine.importKey", imp))] == nil ==> arg1 == pathBase(imp)
-//@   assigns group(ast), restructured, inspections
+//@   requires typing: declsEndSafe(f)
+//@   ensures [C07,C08] every-declaration-group-can-still-tell-where-it-ends: declsEndSafe(f)
+//@   assigns group(ast), restructured, inspections, importFailures
 //@   loop 0
 //@     invariant taken != nil
 //@   loop 1
 //@     invariant taken != nil
+//@     invariant declsEndSafe(f)
 //@   loop 2
-//@     invariant true
+//@     invariant [C07,C08] parentheses-are-dropped-only-around-a-single-import: declsEndSafe(f)
 
 //@ func usesNameAsTopLevel(f, name) (used)
 //@   at call go/ast.Inspect assert [C09,C11,C14] the-file-as-it-is-now-is-searched: arg0 == boxed(f)
